@@ -142,9 +142,9 @@ def cls_ref(relpath, name):
 
 
 class InRect(Inp):
-    def __init__(self, name, m, iterative=False):
+    def __init__(self, name, m, iterative=False, lower_kind="f"):
         self.m = m
-        self.lower = InArr(name + "_lo", (m,))
+        self.lower = InArr(name + "_lo", (m,), lower_kind)   # lower_kind="i": an integer-dtype lower bound array
         self.upper = InArr(name + "_up", (m,))
         self.iterative = iterative
         self.sym = SObj(cls_ref("vopy/confidence_region.py", "RectangularConfidenceRegion"),
@@ -177,9 +177,9 @@ class InOrder(Inp):
     """PolyhedralConeOrder over OrderingCone with symbolic W (K x m); alpha is a separate symbolic
     (K,1) array (its meaning is C17's subject), so the heavy constructor is bypassed in replay."""
 
-    def __init__(self, name, K, m):
+    def __init__(self, name, K, m, W_kind="f"):
         self.K, self.m = K, m
-        self.W = InArr(name + "_W", (K, m))
+        self.W = InArr(name + "_W", (K, m), W_kind)          # W_kind="i": a cone matrix of integer dtype
         self.alpha = InArr(name + "_alpha", (K, 1))
         cone = SObj(cls_ref("vopy/ordering_cone.py", "OrderingCone"),
                     {"W": self.W.sym, "dim": m, "alpha": self.alpha.sym}, tag=name + ".cone")
@@ -272,8 +272,9 @@ class T:
     def func(self, relpath, qualname):
         return extract.get_function(relpath, qualname)
 
-    def run(self, relpath, qualname, args=(), kwargs=None, self_val=None, argnames=None, setmode=False):
-        """Symbolically execute the real function. Returns list[Path]."""
+    def run(self, relpath, qualname, args=(), kwargs=None, self_val=None, argnames=None, setmode=False, after=None):
+        """Symbolically execute the real function. Returns list[Path].  `after`: a Path of an earlier run of this task: the
+        call continues in that path's final state (module-level objects, heap), for properties about call SEQUENCES."""
         fref = extract.get_function(relpath, qualname)
         ex = Exec(self.ctx, contracts=self.contracts, hooks=self.hooks)
         ex.setmode = setmode
@@ -283,6 +284,11 @@ class T:
         ex.pure = set(self.pure)
         st = State()
         st.pc = list(self.pre)
+        if after is not None:
+            prev = after.st.clone()
+            st.pc = list(prev.pc)
+            st.roots = prev.roots
+            st.log = prev.log
         st.frames.append(Frame(fref.module))
         st.roots["inputs"] = {k: d.sym for k, d in self.inputs.items() if not isz(d.sym)}
         st.roots["self"] = self_val
@@ -507,6 +513,9 @@ class T:
                 d = self.inputs[n]
                 cur = p.st.roots["inputs"].get(n) if isinstance(d, InArr) else None
                 if cur is None:
+                    continue
+                if tuple(cur.shape) != tuple(d.snapshot.shape):
+                    cs.append(z3.BoolVal(False))   # the caller's array object was reshaped in place
                     continue
                 for a, b in zip(cur.flat(), d.snapshot.flat()):
                     if a is not b:
